@@ -25,13 +25,16 @@ Disabled(e) ==
   /\ FEq(e.c, FOne)
   /\ e.int_bits = e.user_bits            \* data untouched, bit for bit
 
+\* the user's window may or may not contain 1 ("unscaled"); a factor that is left at 1 on purpose (zero rows / columns, no cost
+\* scaling when P or q vanishes) can only be asked to lie in the window if 1 does
+HasOne(e) == FLe(e.min, FOne) /\ FGe(e.max, FOne)
 Bounded(e) ==
-  /\ \A i \in 1..Len(e.d) : InRange(e.d[i], e.min, e.max) /\ IsPos(e.d[i])
-  /\ \A i \in 1..Len(e.e) : InRange(e.e[i], e.min, e.max) /\ IsPos(e.e[i])
-  /\ InRange(e.c, e.min, e.max) /\ IsPos(e.c)
+  /\ \A i \in 1..Len(e.d) : IsPos(e.d[i]) /\ (InRange(e.d[i], e.min, e.max) \/ (~HasOne(e) /\ e.iters = 0 /\ FEq(e.d[i], FOne)))
+  /\ \A i \in 1..Len(e.e) : IsPos(e.e[i]) /\ (InRange(e.e[i], e.min, e.max) \/ (~HasOne(e) /\ e.iters = 0 /\ FEq(e.e[i], FOne)))
+  /\ IsPos(e.c) /\ (InRange(e.c, e.min, e.max) \/ (~HasOne(e) /\ FEq(e.c, FOne)))
 
 \* all-zero rows in scalar cones and all-zero columns of [P; A] stay unscaled
-ZeroUnscaled(e) ==
+ZeroUnscaled(e) == HasOne(e) =>
   /\ \A i \in 1..Len(e.e) : (e.zero_row[i] /\ e.scalar_row[i]) => FEq(e.e[i], FOne)
   /\ \A j \in 1..Len(e.d) : e.zero_col[j] => FEq(e.d[j], FOne)
 
